@@ -434,8 +434,8 @@ def _record_with_list_field_under_list(L, under_list=False):
     if not isinstance(L, dict):
         return False
     c = L.get("c")
-    if c == "Record" and under_list and any(_has_list(x) for x in L.get("xs", [])):
-        return True
+    if c in ("Record", "Union") and under_list and any(_has_list(x) for x in L.get("xs", [])):
+        return True          # (a union of branches of different depths defers a negative axis to its contents just as a record does)
     ul = under_list or c in ("ListOffset", "List", "Regular") or (c == "Numpy" and len(L.get("shape", [0])) > 1)
     if "x" in L and _record_with_list_field_under_list(L["x"], ul):
         return True
@@ -536,3 +536,49 @@ def num_axis0_bare_recordarray(case, why):
     top_is_record = L.get("c") == "Record"
     depth = 1                       # records count one level; a negative axis equal to -depth of a flat record means axis 0
     return top_is_record and (ax == 0 or (ax == -1 and " * " not in ty))
+
+
+def _flat_leaves(x, out):
+    if isinstance(x, list):
+        for e in x:
+            _flat_leaves(e, out)
+    elif isinstance(x, dict):
+        if set(x.keys()) >= {"t"}:
+            t = x["t"]
+            if t == "list":
+                for e in x["xs"]:
+                    _flat_leaves(e, out)
+            elif t == "int":
+                out.append(float(x["x"]))
+        else:
+            for e in x.values():
+                _flat_leaves(e, out)
+    elif isinstance(x, bool):
+        out.append(1.0 if x else 0.0)
+    elif isinstance(x, (int, float)):
+        out.append(float(x))
+    return out
+
+
+def flatten_all_union_order(case, why):
+    """F73: flatten(axis=None) of a union-typed array: the right leaves, grouped by union content instead of in order.
+    Matches only when the library's leaves are a permutation of the specified ones."""
+    import json as _json
+    if case.get("act") != "flatten" or case.get("args", {}).get("axis") != 77777 or not why.startswith("value differs"):
+        return False
+    if not _has_class(case.get("from"), "Union"):
+        return False
+    try:
+        lib = _json.loads(case.get("lib"))
+    except Exception:
+        return False
+    want = (case.get("spec") or {}).get("v")
+    if want is None:
+        return False
+    return sorted(_flat_leaves(lib, [])) == sorted(_flat_leaves(want, []))
+
+
+def fill_none_union_nested(case, why):
+    """F74: fill_none on a union one of whose contents is an option of lists leaves a union inside a union."""
+    return (case.get("act") == "fillnone" and _has_class(case.get("from"), "Union")
+            and why.startswith("result fails validity") and "contains UnionArray" in why)
